@@ -6,6 +6,10 @@ mod monitor;
 mod util;
 
 use std::path::PathBuf;
+
+#[global_allocator]
+static GLOBAL: monitor::alloc::Counting = monitor::alloc::Counting;
+
 use std::time::Instant;
 use util::report::{Ctx, Tier};
 
